@@ -631,7 +631,11 @@ fn chain_part(run: &Run, shard: usize, n: usize, n_hist: u64, deadline: f64) {
 			run.violation("C01;chain;final_validate", &format!("validate(false): {:?}", e), replay.clone());
 		} else {
 			run.count("chain_full_validations", 1);
-			forged_state_step(run, &chain, &mut h, &mut p, i, &sig, &replay, opts);
+			// only on a node that is where the reference says it is (a violation above may have left it elsewhere)
+			let head_known = chain.head().map(|t| h.ledger.blocks.contains_key(&t.last_block_h)).unwrap_or(false);
+			if run.n_violations() == 0 && head_known {
+				forged_state_step(run, &chain, &mut h, &mut p, i, &sig, &replay, opts);
+			}
 		}
 		if i < 1 {
 			run.sample(json!({"kind": "history", "shape": sig, "blocks": h.blocks.len(), "value_creating_blocks_refused": forged}));
